@@ -402,3 +402,36 @@ func diff(path string, a, b interface{}) string {
 	}
 	return fmt.Sprintf("at %s: %s vs %s", path, Show(a), Show(b))
 }
+
+// Cyclic reports whether a map or slice is reachable from itself.
+func Cyclic(v interface{}) bool {
+	onPath := map[uintptr]bool{}
+	var walk func(v interface{}, depth int) bool
+	walk = func(v interface{}, depth int) bool {
+		if depth > 100000 {
+			return true
+		}
+		switch t := v.(type) {
+		case M:
+			p := reflect.ValueOf(t).Pointer()
+			if onPath[p] {
+				return true
+			}
+			onPath[p] = true
+			for _, x := range t {
+				if walk(x, depth+1) {
+					return true
+				}
+			}
+			delete(onPath, p)
+		case L:
+			for _, x := range t {
+				if walk(x, depth+1) {
+					return true
+				}
+			}
+		}
+		return false
+	}
+	return walk(v, 0)
+}
